@@ -21,58 +21,58 @@ import (
 // ---- diagnostics -------------------------------------------------------------------
 
 var diagIDs = map[string]int{
-	"Attribute redefined":                              1,
-	"Invalid argument name":                            2,
-	"Unclosed configuration block":                     3,
-	"Unclosed configuration body":                      4,
-	"Argument or block definition required":            5,
-	"Argument definition required":                     6,
-	"Missing newline after argument":                   7,
-	"Unexpected comma after argument":                  8,
-	"Invalid block definition":                         9,
-	"Invalid single-argument block definition":         10,
-	"Missing newline after block definition":           11,
-	"Missing false expression in conditional":          12,
-	"Invalid legacy index syntax":                      13,
-	"Nested splat expression not allowed":              14,
-	"Invalid attribute name":                           15,
-	"Missing close bracket on splat index":             16,
-	"Missing close bracket on index":                   17,
-	"Unbalanced parentheses":                           18,
-	"Missing expression":                               19,
-	"Invalid expression":                               20,
-	"Invalid number literal":                           21,
-	"Missing function name":                            22,
-	"Missing open parenthesis":                         23,
-	"Missing closing parenthesis":                      24,
-	"Unterminated function call":                       25,
-	"Missing argument separator":                       26,
-	"Unterminated tuple constructor expression":        27,
-	"Missing item separator":                           28,
-	"Missing attribute value":                          29,
-	"Missing key/value separator":                      30,
-	"Unterminated object constructor expression":       31,
-	"Missing attribute separator":                      32,
-	"Invalid 'for' expression":                         33,
-	"Invalid string literal":                           34,
-	"Unterminated string literal":                      35,
-	"Unexpected end of template":                       36,
-	"Unclosed template interpolation sequence":         38,
-	"Extra characters after interpolation expression":  39,
-	"Invalid template directive":                       40,
-	"Invalid 'for' directive":                          41,
-	"Invalid template control keyword":                 42,
-	"Unterminated template string":                     44,
-	"Extra characters after expression":                45,
-	"Variable name required":                           46,
-	"Attribute name required":                          47,
-	"Unclosed index brackets":                          48,
-	"Index value required":                             49,
-	"Invalid character":                                50,
-	"Unsupported operator":                             51,
-	"Invalid character encoding":                       52,
-	"Invalid multi-line string":                        53,
-	"Invalid escape sequence":                          54,
+	"Attribute redefined":                             1,
+	"Invalid argument name":                           2,
+	"Unclosed configuration block":                    3,
+	"Unclosed configuration body":                     4,
+	"Argument or block definition required":           5,
+	"Argument definition required":                    6,
+	"Missing newline after argument":                  7,
+	"Unexpected comma after argument":                 8,
+	"Invalid block definition":                        9,
+	"Invalid single-argument block definition":        10,
+	"Missing newline after block definition":          11,
+	"Missing false expression in conditional":         12,
+	"Invalid legacy index syntax":                     13,
+	"Nested splat expression not allowed":             14,
+	"Invalid attribute name":                          15,
+	"Missing close bracket on splat index":            16,
+	"Missing close bracket on index":                  17,
+	"Unbalanced parentheses":                          18,
+	"Missing expression":                              19,
+	"Invalid expression":                              20,
+	"Invalid number literal":                          21,
+	"Missing function name":                           22,
+	"Missing open parenthesis":                        23,
+	"Missing closing parenthesis":                     24,
+	"Unterminated function call":                      25,
+	"Missing argument separator":                      26,
+	"Unterminated tuple constructor expression":       27,
+	"Missing item separator":                          28,
+	"Missing attribute value":                         29,
+	"Missing key/value separator":                     30,
+	"Unterminated object constructor expression":      31,
+	"Missing attribute separator":                     32,
+	"Invalid 'for' expression":                        33,
+	"Invalid string literal":                          34,
+	"Unterminated string literal":                     35,
+	"Unexpected end of template":                      36,
+	"Unclosed template interpolation sequence":        38,
+	"Extra characters after interpolation expression": 39,
+	"Invalid template directive":                      40,
+	"Invalid 'for' directive":                         41,
+	"Invalid template control keyword":                42,
+	"Unterminated template string":                    44,
+	"Extra characters after expression":               45,
+	"Variable name required":                          46,
+	"Attribute name required":                         47,
+	"Unclosed index brackets":                         48,
+	"Index value required":                            49,
+	"Invalid character":                               50,
+	"Unsupported operator":                            51,
+	"Invalid character encoding":                      52,
+	"Invalid multi-line string":                       53,
+	"Invalid escape sequence":                         54,
 }
 
 func diagID(d *hcl.Diagnostic) int {
